@@ -1,5 +1,5 @@
 use crate::{
-    AnyStoredVec, ChangeCursor, ReadWriteBaseVec, Result, VecIndex, VecValue, WritableVec,
+    ChangeCursor, ReadWriteBaseVec, Result, VecIndex, VecValue, WritableVec,
 };
 
 use super::{super::CompressionStrategy, ReadWriteCompressedVec};
@@ -27,16 +27,14 @@ where
         let change =
             ReadWriteBaseVec::<I, T>::parse_change_data(&mut c, Self::SIZE_OF_T, |b| S::read(b))?;
 
-        // No overlay map: truncated values ride in `pushed` and `stored_len`
-        // is clamped to where disk still agrees with the rolled-back state.
-        let (stored_len, pushed) = if change.truncated_values.is_empty() {
-            (change.prev_stored_len, change.prev_pushed)
-        } else {
-            let agree_at = change.truncated_start.min(self.real_stored_len());
-            let mut buf = change.truncated_values;
-            buf.extend(change.prev_pushed);
-            (agree_at, buf)
-        };
+        // No overlay map: whatever the data region no longer holds (truncated
+        // values, and anything an earlier rollback step already re-queued) rides
+        // in `pushed`; `stored_len` stays where disk agrees with the restored state.
+        let (stored_len, pushed) = self.base.rollback_parts(
+            change.truncated_start,
+            change.truncated_values,
+            change.prev_pushed,
+        )?;
         self.base
             .apply_rollback(change.prev_stamp, stored_len, pushed);
 
